@@ -579,6 +579,24 @@ func TestC11Backlog(t *testing.T) {
 			}
 			var peers []*peer
 			var accepted []*kcp.UDPSession
+			// one peer is connected and accepted BEFORE the flood: its session must keep
+			// working while the backlog is full of others
+			eaddr := &net.UDPAddr{IP: net.IPv4(10, 2, 0, 1), Port: 2000}
+			econn := s.Net.Listen(eaddr)
+			ecli, _ := kcp.NewConn3(6999, laddr, nil, fec[0], fec[1], econn)
+			ecli.SetNoDelay(1, 20, 2, 1)
+			ecli.Write([]byte("E1"))
+			eacc := s.Go("Accept", func() (int, error, any) { x, err := L.AcceptKCP(); return 0, err, x })
+			s.SleepTo(40)
+			if !eacc.Done() || eacc.Err != nil {
+				rt.Fatalf("harness: first peer not accepted")
+			}
+			esrv := eacc.Val.(*kcp.UDPSession)
+			defer func() { ecli.Close(); esrv.Close(); econn.Close() }()
+			ebuf := make([]byte, 64)
+			if n, err := esrv.Read(ebuf); err != nil || string(ebuf[:n]) != "E1" {
+				rt.Fatalf("harness: established session read %q %v", ebuf[:n], err)
+			}
 			defer func() {
 				for _, p := range peers {
 					p.cli.Close()
@@ -605,10 +623,21 @@ func TestC11Backlog(t *testing.T) {
 				p.cli.Write([]byte{byte(i), byte(i >> 8), 0x5a})
 				peers = append(peers, p)
 			}
-			s.SleepTo(acceptAfter)
+			s.SleepTo(40 + acceptAfter)
 			tbl, backlog := L.VerifSessions()
-			if backlog > 128 || len(tbl) > 128 {
+			if backlog > 128 || len(tbl) > 129 {
 				rt.Fatalf("C11: %d sessions in the table, %d in the accept backlog (limit 128)", len(tbl), backlog)
+			}
+			// the established session is not disturbed by the crowd at the door
+			ecli.Write([]byte("E2-while-the-backlog-is-full"))
+			erd := s.Go("Read", func() (int, error, any) {
+				esrv.SetReadDeadline(s.Start.Add(time.Duration(s.Now()+5000) * time.Millisecond))
+				n, err := esrv.Read(ebuf)
+				return n, err, nil
+			})
+			s.SleepTo(s.Now() + 5100)
+			if !erd.Done() || erd.Err != nil || string(ebuf[:erd.N]) != "E2-while-the-backlog-is-full" {
+				rt.Fatalf("C11: an established, accepted session stalled while %d other peers wait in the accept backlog (read n=%d err=%v)", backlog, erd.N, erd.Err)
 			}
 			if npeers > 128 {
 				overflowed = backlog == 128
